@@ -184,7 +184,8 @@ class RichGen:
                         toks.append(T(","))
                 toks.append(T(")"))
                 if r.random() < 0.4:
-                    toks += [T("="), T(r.choice(["0", "1", "7", "007", "010", "0017", "09", "0080", "00", "4294967295", "16777215"]), "INTEGER")]
+                    toks += [T("="), T(r.choice(["0", "1", "7", "007", "010", "0017", "09", "0080", "00", "4294967295", "16777215", "16777217", "65536",
+                                              "2147483648"]), "INTEGER")]
                 toks.append(T(";"))
             toks.append(T("}"))
         elif kind == "parcelable":
